@@ -33,7 +33,7 @@ NoScn == [sc |-> -1, cls |-> "", ops |-> <<>>]
 
 StatKeys == {"random", "sid", "suites", "sni", "nosni", "ext", "noext", "front",
              "ApplyPreset", "Build", "BuildNoSess", "SetClientRandom", "SetSNI", "RemoveSNI", "EditSuites", "EditSessionId",
-             "ExtInsert", "ExtRemove", "ExtALPN", "unprotected", "scn", "ch1", "ch2", "hrr", "hrr_cookie", "done", "done_hrr", "failed", "rebuilt", "seeded", "psk"}
+             "ExtInsert", "ExtRemove", "ExtALPN", "ExtSNIField", "sni_literal", "unprotected", "scn", "ch1", "ch2", "hrr", "hrr_cookie", "done", "done_hrr", "failed", "rebuilt", "seeded", "psk"}
 Bump(ks) == stats' = [k \in StatKeys |-> stats[k] + (IF k \in ks THEN 1 ELSE 0)]
 
 Init == /\ l = 1 /\ rej = {} /\ scn = NoScn /\ stats = [k \in StatKeys |-> 0] /\ atsend = NoSer
@@ -59,8 +59,6 @@ OnScn(ev) ==
   /\ Bump({"scn"})
 
 \* ---- Call: the public calls and edits
-RECURSIVE StripDots(_)
-StripDots(n) == IF n # <<>> /\ n[Len(n)] = 46 THEN StripDots(SubSeq(n, 1, Len(n) - 1)) ELSE n
 NewSuites(before, o) == CASE o.kind = "append" -> Append(before, o.v)
                           [] o.kind = "droplast" -> IF before = <<>> THEN before ELSE SubSeq(before, 1, Len(before) - 1)
                           [] OTHER -> o.list
@@ -76,14 +74,16 @@ OnCall(ev) ==
      ELSE IF ev.err # "" \/ ev.panic # "" THEN Ignore /\ UNCHANGED stats          \* the call refused: no effect
      ELSE IF ~Bound(o, ev) THEN Reject("binding", o.op) /\ UNCHANGED stats
      ELSE IF phase # "edit" THEN Reject("order", "call-after-handshake-start") /\ UNCHANGED stats
-     ELSE /\ Bump({o.op} \cup (IF ~Protected /\ o.op \in {"SetClientRandom", "EditSuites", "EditSessionId", "ExtInsert", "ExtRemove", "ExtALPN"}
+     ELSE /\ Bump({o.op} \cup (IF ~Protected /\ o.op \in {"SetClientRandom", "EditSuites", "EditSessionId", "ExtInsert", "ExtRemove", "ExtALPN", "ExtSNIField"}
                                THEN {"unprotected"} ELSE {}))
           /\ CASE o.op = "ApplyPreset"     -> ApplyPreset /\ Judge
                [] o.op = "Build"           -> Build(TRUE, S(ev.sha, BadHello)) /\ Judge
                [] o.op = "BuildNoSess"     -> Build(FALSE, S(ev.sha, BadHello)) /\ Judge
                [] o.op = "SetClientRandom" -> SetClientRandom(o.r) /\ Judge
                [] o.op = "SetSNI"          -> SetSNI(ev.norm) /\ rej' = rej \cup Viol'
-                                                \cup (IF ev.norm # StripDots(o.name) THEN {<<scn.sc, "norm", "hostnameInSNI">>} ELSE {})
+                                                \cup (IF ev.norm # HostnameInSNI(o.name) THEN {<<scn.sc, "norm", "hostnameInSNI">>} ELSE {})
+               [] o.op = "ExtSNIField"     -> ExtSNIField(ev.norm, ev.found >= 1) /\ rej' = rej \cup Viol'
+                                                \cup (IF ev.norm # HostnameInSNI(o.name) THEN {<<scn.sc, "norm", "hostnameInSNI">>} ELSE {})
                [] o.op = "RemoveSNI"       -> RemoveSNI /\ Judge
                [] o.op = "EditSuites"      -> EditSuites(ev.suites) /\ Judge
                [] o.op = "EditSessionId"   -> EditSessionId(o.sid) /\ Judge
@@ -99,7 +99,8 @@ OnRebuilt(ev) ==
      ELSE IF ev.n # Len(ev.raw) THEN Reject("binding", "rebuilt-length-and-bytes-differ") /\ UNCHANGED stats
      ELSE /\ \E img \in {ParseHello(ev.raw)} : StartHandshake(S(ev.sha, img))
           /\ Judge
-          /\ Bump({"rebuilt"} \cup {c.kind : c \in pending'} \cup (IF HasExtT(rebuilt'.img, 41) THEN {"psk"} ELSE {}))
+          /\ Bump({"rebuilt"} \cup {c.kind : c \in pending'} \cup (IF HasExtT(rebuilt'.img, 41) THEN {"psk"} ELSE {})
+                    \cup (IF \E c \in pending' : c.kind = "sni" /\ c.v = <<>> THEN {"sni_literal"} ELSE {}))
 
 \* ---- Rec: SendCH1 / SendCH2 (only plaintext ClientHello records are hellos)
 IsCH(ev) == Len(ev.head) = 4 /\ ev.head[1] = 1 /\ RdU24(ev.head, 2) + 4 = ev.n
